@@ -168,6 +168,7 @@ static void build_platform(sg4::Engine& e)
       auto* d = hosts.at(t[1])->add_disk(t[2], num(t[3]), num(t[4]));
       for (size_t i = 5; i + 1 < t.size(); i += 2)
         d->set_property(t[i], t[i + 1]);
+      d->seal();
       disks[t[2]] = d;
     } else if (t[0] == "link") { // link NAME BW LAT POLICY
       if (t[4] == "SPLITDUPLEX") {
